@@ -1283,7 +1283,7 @@ type c17Witness struct {
 func init() {
 	core.Register(&core.Check{
 		ID:   "C17",
-		Rule: "documents: one-hot per (position, field): every constraint field of non-body parameters in query/header/path, of form parameters, of shared (#/parameters) parameters and of response headers; every schema field (incl. x-nullable, discriminator, $ref in items/properties/additionalProperties/allOf) at 8 positions (definition, nested property, items, additionalProperties, allOf member, body schema, response schema, shared response schema); file upload; servers (host/basePath/schemes variants); the five security definition kinds; operation security; path-level parameters; several methods; coded and default responses; plus PRNG-drawn combinations of these. For each valid convertible v2 document: ToV3 (two fresh parses and two more conversions of the same in-memory document: the model may depend neither on map iteration order nor on earlier conversions, and ToV3 must leave its input unchanged; FromV3 is run twice on the same document as well), Validate(v3), model(v2) = model(v3); FromV3 and model(v2') = model(v2); every $ref in v2' is a v2 location. Distinct = (position, field); non-trivial = the document has at least one constraint or reference. Shard 0 additionally converts different documents with references from 16 goroutines at once; each result must equal the conversion alone.",
+		Rule: "documents: one-hot per (position, field): every constraint field of non-body parameters in query/header/path, of form parameters, of shared (#/parameters) parameters and of response headers; every schema field (incl. x-nullable, discriminator, $ref in items/properties/additionalProperties/allOf) at 8 positions (definition, nested property, items, additionalProperties, allOf member, body schema, response schema, shared response schema); file upload; servers (host/basePath/schemes variants); the five security definition kinds; operation security; path-level parameters; several methods; coded and default responses; plus PRNG-drawn combinations of these. For each valid convertible v2 document: ToV3 (two fresh parses and two more conversions of the same in-memory document: the model may depend neither on map iteration order nor on earlier conversions, and ToV3 must leave its input unchanged; FromV3 is run twice on the same document as well), Validate(v3), model(v2) = model(v3); FromV3 and model(v2') = model(v2); every $ref in v2' is a v2 location. Distinct = (position, field); non-trivial = the document has at least one constraint or reference. Shard 0 additionally converts different documents with references from 16 goroutines at once; each result must equal the conversion alone. Also: ws/wss schemes, base paths needing escaping (v3 server urls compared as URLs), one name in several locations, path-level body/form parameters (open findings).",
 		Assumptions: []string{
 			"the two model extractors (written against the Swagger 2.0 and OpenAPI 3.0.3 texts, over raw JSON) are correct",
 			"consumes/produces media types are not part of the compared model (only form vs body and the schemas)",
